@@ -1258,6 +1258,7 @@ class Interp:
             if self.decide(wk == kt):
                 return True, wv
         if d.base is not None:
+            self.ctx.assume(z3.Implies(fn("dict_has", V, V, Bool)(d.base, kt), fn("dict_len", V, Int)(d.base) >= 1))
             if self.decide(fn("dict_has", V, V, Bool)(d.base, kt)):
                 v = SymV(fn("dict_get", V, V, V)(d.base, kt))
                 if d.inv is not None:
@@ -1419,9 +1420,19 @@ class Interp:
                 raise Unsupported("dict unpacking")
             kv = self.eval(k, env)
             if not isinstance(kv, Conc):
-                raise Unsupported("symbolic dict key in literal")
+                return self._symbolic_key_dict(node, env)
             d[kv.obj] = self.eval(v, env)
         return PyDict(d)
+
+    def _symbolic_key_dict(self, node, env):
+        """A dict display with a symbolic key ({expr: 1}): an empty symbolic dict plus one write per item, in display order (a later equal key
+        overrides an earlier one, as in Python).  Not an input, so nothing leaks between paths: the value is built afresh on every path."""
+        d = SymDict(None, None, self.fresh_name(node, "dictlit"))
+        for k, v in zip(node.keys, node.values):
+            kv = self.eval(k, env)
+            vv = self.eval(v, env)
+            d.writes.append((self.lift(kv), kv, vv))
+        return d
 
     def e_BinOp(self, node, env):
         a = self.eval(node.left, env)
